@@ -23,9 +23,9 @@ EXIT = {'PASS': 0, 'SKIPPED': 0, 'FAIL': 32, 'XFAIL': 33, 'XPASS': 33, 'SYNTAX_E
         'FILE_ACCESS_ERROR': 65, 'PRE_PROCESS_ERROR': 65, 'HARD_ERROR': 128, 'INTERNAL_ERROR': 129}
 
 
-def cfg(max_instr, max_mut, hang=False, export=False):
-    c = ('SPECIFICATION Spec\nCONSTANTS MaxInstr = %d\n MaxMut = %d\n IncludeHang = %s\n'
-         % (max_instr, max_mut, 'TRUE' if hang else 'FALSE'))
+def cfg(max_instr, max_mut, hang=False, export=False, quote_family=False):
+    c = ('SPECIFICATION Spec\nCONSTANTS MaxInstr = %d\n MaxMut = %d\n IncludeHang = %s\n QuoteFamily = %s\n'
+         % (max_instr, max_mut, 'TRUE' if hang else 'FALSE', 'TRUE' if quote_family else 'FALSE'))
     c += 'INVARIANT Export\n' if export else 'INVARIANT NeverInternal\nINVARIANT ClassTotal\nINVARIANT ValidHasNoDefect\n'
     return c + 'CHECK_DEADLOCK FALSE\n'
 
@@ -147,7 +147,13 @@ def run(ctx):
     sim = ctx.tlc('RobustExport', cfg(2, 2, export=True), workers=1, simulate='num=%d' % (1200 if quick else 20000),
                   depth=12, seed=ctx.seed + 5, name='simulate', count=True, timeout=3000)
     simc = {json.dumps(c['toks']): c for c in sim.printed_json('CASE')}
-    gen = derivs + list(simc.values())
+    # exhaustive: one unbalanced quote in front of every token of every skeleton and of every kind of [act] line
+    exq = ctx.tlc('RobustExport', cfg(1, 1, export=True, quote_family=True), workers=1, name='export-quote-family',
+                  count=True, timeout=3000)
+    quotes = {json.dumps(c['toks']): c for c in exq.printed_json('CASE')}
+    if len(quotes) < 500:
+        raise core.MachineryFailure('quote family too small: %d' % len(quotes))
+    gen = derivs + list(simc.values()) + list(quotes.values())
     classes = {}
     for c in gen:
         classes[c['class']] = classes.get(c['class'], 0) + 1
